@@ -488,7 +488,9 @@ pub fn check_c05(cx: &C05Ctx, out: &mut Outcome) {
                 }
                 if let Ok(Frame::Headers { stream, .. }) = &f.frame {
                     let w = &ws[stream];
-                    if w.opened_by != Some(e) || w.headers_t_w[i] != Some(f.t_w0) {
+                    // (the opening frame itself, identified by its position in the byte stream: trailers written in the
+                    // same step are HEADERS too)
+                    if w.opened_by != Some(e) || w.open_off != f.off0 {
                         continue;
                     }
                     let limit = match cx.av.at[pos].2 {
